@@ -82,6 +82,9 @@ void wait_quiescent(const char *label);       // returns once no other managed t
 int64_t clock_ms();                           // virtual clock
 int mutex_owner(const void *m);               // -1 if free / unknown
 int thread_count();
+// unordered conflicting accesses seen by the optional race detector (racedet.cpp), one JSON fragment each
+std::vector<std::string> race_reports();
+bool race_detector_linked();
 // Run fn with interception disabled for the calling thread (e.g. logging through iostreams).
 struct Passthrough { Passthrough(); ~Passthrough(); };
 
